@@ -83,8 +83,11 @@ impl Property for C01 {
         crate::selftest::model_vs_recorded()
     }
     fn strategy(&self, _tier: Tier) -> BoxedStrategy<Case> {
-        (robot_any(DofChoice::Both), pose_any(), prev_any(), 0u8..4, prop_oneof![Just(0.0), -10.0..10.0f64], prop_oneof![3 => Just(None), 1 => robot_any(DofChoice::Both).prop_map(Some)], prop::bool::weighted(0.25))
-            .prop_map(|(robot, pose, prev, entry, j6, other, neg_q)| Case { robot, pose, prev, entry, j6, other, neg_q })
+        (robot_any(DofChoice::Both), pose_any(), prev_any(), 0u8..4, prop_oneof![Just(0.0), -10.0..10.0f64], other_robot(DofChoice::Both, true), prop::bool::weighted(0.25))
+            .prop_map(|(robot, pose, prev, entry, j6, other, neg_q)| {
+                let other = resolve_other(&robot, other, true);
+                Case { robot, pose, prev, entry, j6, other, neg_q }
+            })
             .boxed()
     }
     fn check(&self, c: &Case, ctx: &mut Ctx) -> Res {
